@@ -83,7 +83,7 @@ def main():
         except Exception:
             pass
     for f in os.listdir(src):
-        if os.path.isfile(os.path.join(src, f)):
+        if os.path.isfile(os.path.join(src, f)) and os.path.abspath(src) != os.path.abspath(dst):
             shutil.copy(os.path.join(src, f), dst)
     rd = os.path.join(src, "README.md")
     if os.path.exists(rd):
